@@ -96,6 +96,11 @@ pub assume_specification [f64::ceil] (x: f64) -> (r: f64) ensures r == f64_fn1(4
 pub assume_specification [f64::round] (x: f64) -> (r: f64) ensures r == f64_fn1(5, x);
 pub assume_specification [f64::min] (x: f64, y: f64) -> (r: f64) ensures r == f64_fn2(1, x, y);
 pub assume_specification [f64::max] (x: f64, y: f64) -> (r: f64) ensures r == f64_fn2(2, x, y);
+pub uninterp spec fn f64_fn3(name: int, x: f64, y: f64, z: f64) -> f64;
+// f64::clamp panics when !(min <= max) (NaN bounds included): that is its precondition here
+pub assume_specification [f64::clamp] (x: f64, lo: f64, hi: f64) -> (r: f64)
+    requires fle(lo, hi),      //@ f64.clamp.min_le_max [C08]
+    ensures r == f64_fn3(1, x, lo, hi);
 pub assume_specification [f64::powi] (x: f64, n: i32) -> (r: f64) ensures r == f64_fn2(3, x, spec_usize_to_f64(n as usize));
 
 pub mod fax {
